@@ -524,6 +524,8 @@ pub fn dump_names(path: &std::path::Path, limit: usize) {
     let mut out: Vec<String> = names.iter().step_by(step).cloned().collect();
     for len in [1usize, 2, 15, 16, 17, 31, 32, 33, 48] { out.push((0..len).map(|i| char::from(b'A' + ((i * 5 + len) % 26) as u8)).collect()); }
     out.push("x-Custom-Header_1".into());
+    // bytes right next to the letter ranges (an off-by-one in a case fold shows only there)
+    for n in ["X_VAR[", "Q@Z", "a{b`"] { out.push(n.into()); }
     let mut f = std::fs::File::create(path).unwrap_or_else(|e| { eprintln!("cannot create {}: {e}", path.display()); std::process::exit(2) });
     for n in out { writeln!(f, "{}", json!({"n": n.as_bytes()})).expect("write"); }
 }
